@@ -75,6 +75,8 @@ func (s *fScn) priorKind() string {
 	switch {
 	case p.Px == 0:
 		return "empty"
+	case p.D1 > 1:
+		return "shallow2" // shallow with non-shallow commits (fetched with depth 2)
 	case p.D1 > 0:
 		return "shallow"
 	case p.Local:
@@ -677,14 +679,20 @@ func c36(args []string) error {
 			continue
 		}
 		// bulk: go-git client against go-git server in process, observed with go-git
-		l := fix(fLeg{fmt.Sprintf("gogit->gogit:v%d", 2*rnd.Intn(2)), "gogit", "gogit-file", 0})
-		step, ds, c, err := w.runLeg(s, l, false)
-		if err != nil {
-			return err
+		vers := []int{2 * rnd.Intn(2)}
+		if s.Scn.Prior.D1 > 0 {
+			vers = []int{0, 2} // a shallow client takes different server paths per wire version: both
 		}
-		legCount["gogit->gogit"]++
-		r.Eval(1)
-		report(s, l, step, ds, c)
+		for _, v := range vers {
+			l := fix(fLeg{fmt.Sprintf("gogit->gogit:v%d", v), "gogit", "gogit-file", 0})
+			step, ds, c, err := w.runLeg(s, l, false)
+			if err != nil {
+				return err
+			}
+			legCount["gogit->gogit"]++
+			r.Eval(1)
+			report(s, l, step, ds, c)
+		}
 	}
 	r.Distinct = r.Evaluations
 	r.Traces = r.Evaluations
